@@ -64,7 +64,7 @@ def main():
     meta['detected'] = any(v['exit'] == 1 for v in results.values())
     d = os.path.join(V, 'seeded', '%s-%d' % (prop, int(n) + offset)); os.makedirs(d, exist_ok=True)
     meta['n'] = int(n) + offset
-    if offset: meta['round'] = 2
+    meta['round'] = (int(n) + offset + 1) // 2
     shutil.copy(diff, d + '/patch.diff'); shutil.copy(demo, d + '/seed_demo.rs')
     for rep in (out + '/REPORT.md', out + '/REPORT.txt'):
         if os.path.exists(rep): shutil.copy(rep, d + '/AGENT_REPORT.md')
